@@ -1,7 +1,1363 @@
-//! C02: correspondence + oracle runs (sub-commands `c02` / `c02-*`).
+//! C02: socket I/O across the full stack is intact, ordered and bounded.
+//!
+//! Two sub-commands (runs of tools/props/C02.json):
+//!
+//! * `c02` — `Socket::recv` / `recv_msg` correspondence.  Two machines with a connected UDP socket
+//!   each, loss-free network, paused current_thread runtime: the harness knows exactly which
+//!   datagrams sit in B's queue (and sees the outcome of `SocketSession::receive` through the
+//!   `socket_api::verif` observer), then issues `recv(n)` / `recv_msg` with n around the message
+//!   boundaries, blocking and non-blocking.  Every call is one op line; the Lean model
+//!   (`Model/Socket.lean` (i),(ii)) must print the same result.
+//! * `c02-stack` — full-stack runs: 1..N clients and one listening server over a `Network` with a
+//!   seeded fault planner (MTU >= 100, jitter, drops with bounded consecutive loss, duplicates),
+//!   k writes of 1 B .. 100 KB back-to-back or spaced, reader asking random n, on the paused
+//!   current_thread runtime AND on multi_thread with 2/4/16 workers.  On the paused runtime the
+//!   complete socket-layer event sequence of the server (listen / new connection / chunk arrival
+//!   with its outcome / accept activation / accept replay / recv) is replayed through the Lean
+//!   model of the session table; on every runtime the order in which the writes reach `Tcb::send`
+//!   is checked against the hand-off model (`reachable`).
+//!
+//! Oracle (the property, independent of the code): per connection the bytes read are the
+//! concatenation of that client's writes in program order; every `recv(n)` returns at most n
+//! bytes; a datagram read is exactly one datagram sent by the connected peer.
+use crate::scaffold::*;
+use elvis_core::{
+    machine::Machine,
+    message::Message,
+    network::VerifFramePlan,
+    protocol::{DemuxError, StartError},
+    protocols::{
+        ipv4::Ipv4Address,
+        socket_api::{
+            socket::{ProtocolFamily, Socket, SocketType},
+            verif as sv,
+        },
+        Arp, Endpoint, Endpoints, SocketAPI,
+    },
+    Control, Protocol, Session, Shutdown,
+};
 use hcommon::*;
+use std::cell::Cell;
+use std::collections::HashMap;
+use std::sync::atomic::{AtomicUsize, Ordering};
+use std::sync::{Arc, Mutex};
+use std::time::Duration;
+use tokio::sync::Barrier;
+use tokio::time::sleep;
+
+// ------------------------------------------------------------------------------------------
+// payload pattern and digest shared with the Lean driver
+// ------------------------------------------------------------------------------------------
+
+fn pat_byte(c: u64, o: u64) -> u8 {
+    ((o * 131 + (o / 256) * 29 + (o / 65536) * 7 + c * 53 + 11) % 256) as u8
+}
+fn pat_range(c: u64, off: u64, len: u64) -> Vec<u8> {
+    (0..len).map(|i| pat_byte(c, off + i)).collect()
+}
+/// FNV-1a, 32 bit
+fn digest(b: &[u8]) -> u32 {
+    let mut h: u64 = 2166136261;
+    for x in b {
+        h = ((h ^ (*x as u64)) * 16777619) % 4294967296;
+    }
+    h as u32
+}
+
+// ------------------------------------------------------------------------------------------
+// socket-layer event log (process-wide: one scenario at a time per worker process)
+// ------------------------------------------------------------------------------------------
+
+#[derive(Clone, Debug)]
+enum SEv {
+    Listen { ep: Ep, backlog: usize },
+    Write { client: usize, idx: usize, len: usize },
+    SendFailed { client: usize, idx: usize },
+    TcbSend { local: Ep, bytes: Vec<u8> },
+    NewConn { local: Ep, remote: Ep },
+    /// `SocketAPI::demux` entered
+    Demux { local: Ep, remote: Ep, bytes: Vec<u8> },
+    /// `SocketSession::receive` finished for the demux event with this index
+    Rx { demux: usize, outcome: sv::ReceiveOutcome },
+    AcceptGap { local: Ep, remote: Ep },
+    Accepted { local: Ep, remote: Ep },
+    GapInject { completed_in_gap: bool },
+    Read { local: Ep, remote: Ep, n: usize, bytes: Vec<u8> },
+    ReadMsg { local: Ep, remote: Ep, bytes: Vec<u8> },
+    Note(String),
+}
+
+static SLOG: Mutex<Vec<SEv>> = Mutex::new(Vec::new());
+static SERVER_MACHINE: Mutex<Option<Arc<Machine>>> = Mutex::new(None);
+/// completion signal of the thread that injects a chunk during accept() (F-C02-4 replay)
+static GAP_DONE: Mutex<Option<std::sync::mpsc::Receiver<()>>> = Mutex::new(None);
+
+thread_local! {
+    static PENDING_DEMUX: Cell<Option<usize>> = Cell::new(None);
+    static LAST_ACCEPT: Cell<Option<(Ep, Ep)>> = Cell::new(None);
+}
+
+fn slog(ev: SEv) -> usize {
+    let mut g = SLOG.lock().unwrap();
+    g.push(ev);
+    g.len() - 1
+}
+fn ep_of(e: Endpoint) -> Ep {
+    Ep::new(e.address.to_u32(), e.port)
+}
+
+struct NullSession;
+impl Session for NullSession {
+    fn send(&self, _m: Message, _mc: Arc<Machine>) -> Result<(), elvis_core::session::SendError> {
+        Ok(())
+    }
+}
+
+/// bytes injected between activation and replay of `accept()` (F-C02-4 replay)
+const GAP_MARK: &[u8] = b"<<GAP>>";
+
+fn install_observer(gap_inject: bool) {
+    SLOG.lock().unwrap().clear();
+    *SERVER_MACHINE.lock().unwrap() = None;
+    *GAP_DONE.lock().unwrap() = None;
+    let injected = Arc::new(AtomicUsize::new(0));
+    sv::set_observer(Some(Arc::new(move |e: &sv::Event| match e {
+        sv::Event::Demux { id, message } => {
+            let i = slog(SEv::Demux { local: ep_of(id.local), remote: ep_of(id.remote), bytes: message.to_vec() });
+            PENDING_DEMUX.with(|p| p.set(Some(i)));
+        }
+        sv::Event::Receive(o) => {
+            if let Some(i) = PENDING_DEMUX.with(|p| p.take()) {
+                slog(SEv::Rx { demux: i, outcome: *o });
+            }
+        }
+        sv::Event::NewConnection { id } => {
+            slog(SEv::NewConn { local: ep_of(id.local), remote: ep_of(id.remote) });
+        }
+        sv::Event::AcceptGap { local, remote } => {
+            slog(SEv::AcceptGap { local: ep_of(*local), remote: ep_of(*remote) });
+            if gap_inject && injected.fetch_add(1, Ordering::SeqCst) == 0 {
+                // What the TCP session task of this connection does when it runs on another
+                // worker thread right now: hand the next chunk to SocketAPI::demux.
+                let m = SERVER_MACHINE.lock().unwrap().clone();
+                if let Some(m) = m {
+                    let api = m.protocol::<SocketAPI>().unwrap();
+                    let (tx, rx) = std::sync::mpsc::channel();
+                    let (l, r) = (*local, *remote);
+                    std::thread::spawn(move || {
+                        let mut c = Control::new();
+                        c.insert(Endpoints::new(l, r));
+                        let _ = api.demux(Message::new(GAP_MARK.to_vec()), Arc::new(NullSession), c, m);
+                        let _ = tx.send(());
+                    });
+                    let done = rx.recv_timeout(Duration::from_millis(200)).is_ok();
+                    slog(SEv::GapInject { completed_in_gap: done });
+                    if !done {
+                        // excluded by a lock: the server waits for it right after accept()
+                        // (virtual time must not run away from the real thread)
+                        *GAP_DONE.lock().unwrap() = Some(rx);
+                    }
+                }
+            }
+        }
+        sv::Event::AcceptReplayed { local, remote } => {
+            slog(SEv::Accepted { local: ep_of(*local), remote: ep_of(*remote) });
+            LAST_ACCEPT.with(|p| p.set(Some((ep_of(*local), ep_of(*remote)))));
+        }
+        sv::Event::TcbSend { id, message } => {
+            slog(SEv::TcbSend { local: ep_of(id.local), bytes: message.to_vec() });
+        }
+    })));
+}
+
+// ------------------------------------------------------------------------------------------
+// scenario of a full-stack run
+// ------------------------------------------------------------------------------------------
+
+const SERVER_ADDR: [u8; 4] = [10, 0, 0, 1];
+const SERVER_PORT: u16 = 7000;
+fn client_addr(i: usize) -> [u8; 4] {
+    [10, 0, 0, 10 + i as u8]
+}
+const INTRUDER_ADDR: [u8; 4] = [10, 0, 0, 200];
+
+#[derive(Clone, Debug, PartialEq)]
+struct Scn {
+    tcp: bool,
+    mode: RtMode,
+    mtu: u16,
+    lat: u64,
+    jit: u64,
+    drop: u64,
+    dup: u64,
+    maxloss: u64,
+    seed: u64,
+    /// microseconds between two writes of a client (0 = back-to-back)
+    gap: u64,
+    /// client i connects at i * start microseconds
+    start: u64,
+    /// server calls accept() this long after the barrier
+    adelay: u64,
+    /// a reader starts reading this long after its accept
+    rdelay: u64,
+    /// pause between two reads
+    rgap: u64,
+    /// largest read size asked for (0 = whole range)
+    maxread: u64,
+    gapinject: bool,
+    /// UDP only: a third machine sends datagrams to client 0's socket
+    intruder: bool,
+    dur: u64,
+    backlog: usize,
+    /// write sizes per client
+    writes: Vec<Vec<u64>>,
+}
+
+impl Scn {
+    fn to_line(&self) -> String {
+        let w: Vec<String> = self.writes.iter().map(|c| c.iter().map(|x| x.to_string()).collect::<Vec<_>>().join(",")).collect();
+        format!(
+            "scn kind={} mode={} mtu={} lat={} jit={} drop={} dup={} maxloss={} seed={} gap={} start={} adelay={} rdelay={} rgap={} maxread={} gapinject={} intruder={} dur={} backlog={} writes={}",
+            if self.tcp { "tcp" } else { "udp" },
+            match self.mode {
+                RtMode::Paused => "paused".to_string(),
+                RtMode::MultiThread(k) => format!("mt:{}", k),
+            },
+            self.mtu,
+            self.lat,
+            self.jit,
+            self.drop,
+            self.dup,
+            self.maxloss,
+            self.seed,
+            self.gap,
+            self.start,
+            self.adelay,
+            self.rdelay,
+            self.rgap,
+            self.maxread,
+            self.gapinject as u8,
+            self.intruder as u8,
+            self.dur,
+            self.backlog,
+            w.join(";")
+        )
+    }
+    fn parse(line: &str) -> Option<Scn> {
+        let mut s = Scn {
+            tcp: true,
+            mode: RtMode::Paused,
+            mtu: 1500,
+            lat: 1000,
+            jit: 0,
+            drop: 0,
+            dup: 0,
+            maxloss: 1,
+            seed: 1,
+            gap: 0,
+            start: 0,
+            adelay: 0,
+            rdelay: 0,
+            rgap: 0,
+            maxread: 0,
+            gapinject: false,
+            intruder: false,
+            dur: 30_000_000,
+            backlog: 64,
+            writes: vec![],
+        };
+        for w in line.split_whitespace().skip(1) {
+            let (k, v) = w.split_once('=')?;
+            match k {
+                "kind" => s.tcp = v == "tcp",
+                "mode" => s.mode = if v == "paused" { RtMode::Paused } else { RtMode::MultiThread(v.strip_prefix("mt:")?.parse().ok()?) },
+                "mtu" => s.mtu = v.parse().ok()?,
+                "lat" => s.lat = v.parse().ok()?,
+                "jit" => s.jit = v.parse().ok()?,
+                "drop" => s.drop = v.parse().ok()?,
+                "dup" => s.dup = v.parse().ok()?,
+                "maxloss" => s.maxloss = v.parse().ok()?,
+                "seed" => s.seed = v.parse().ok()?,
+                "gap" => s.gap = v.parse().ok()?,
+                "start" => s.start = v.parse().ok()?,
+                "adelay" => s.adelay = v.parse().ok()?,
+                "rdelay" => s.rdelay = v.parse().ok()?,
+                "rgap" => s.rgap = v.parse().ok()?,
+                "maxread" => s.maxread = v.parse().ok()?,
+                "gapinject" => s.gapinject = v == "1",
+                "intruder" => s.intruder = v == "1",
+                "dur" => s.dur = v.parse().ok()?,
+                "backlog" => s.backlog = v.parse().ok()?,
+                "writes" => {
+                    for c in v.split(';') {
+                        s.writes.push(if c.is_empty() { vec![] } else { c.split(',').map(|x| x.parse().unwrap_or(0)).collect() });
+                    }
+                }
+                _ => {}
+            }
+        }
+        if s.writes.is_empty() {
+            return None;
+        }
+        Some(s)
+    }
+    fn n_clients(&self) -> usize {
+        self.writes.len()
+    }
+    fn total(&self, c: usize) -> u64 {
+        self.writes[c].iter().sum()
+    }
+    /// bytes of write `i` of client `c` (stream pattern for TCP; for UDP each datagram carries
+    /// the pattern at its own offset, so datagrams are pairwise distinct)
+    fn write_bytes(&self, c: usize, i: usize) -> Vec<u8> {
+        let off: u64 = self.writes[c][..i].iter().sum();
+        pat_range(c as u64, off, self.writes[c][i])
+    }
+    /// UDP: does datagram `i` of client `c` fit into one frame (IPv4 + UDP headers = 28 bytes)?
+    /// `UdpSession::send` does not fragment: a larger datagram is refused with a send error.
+    fn fits(&self, c: usize, i: usize) -> bool {
+        self.writes[c][i] + 28 <= self.mtu as u64
+    }
+    fn stream(&self, c: usize) -> Vec<u8> {
+        pat_range(c as u64, 0, self.total(c))
+    }
+}
+
+// ------------------------------------------------------------------------------------------
+// applications
+// ------------------------------------------------------------------------------------------
+
+struct ClientApp {
+    idx: usize,
+    scn: Arc<Scn>,
+}
+
+#[async_trait::async_trait]
+impl Protocol for ClientApp {
+    async fn start(&self, shutdown: Shutdown, initialized: Arc<Barrier>, machine: Arc<Machine>) -> Result<(), StartError> {
+        let sockets = machine.protocol::<SocketAPI>().unwrap();
+        let kind = if self.scn.tcp { SocketType::Stream } else { SocketType::Datagram };
+        let mut sock = sockets.new_socket(ProtocolFamily::INET, kind, machine.clone()).await.unwrap();
+        let mut rx = shutdown.receiver();
+        initialized.wait().await;
+        if self.scn.start > 0 {
+            sleep(Duration::from_micros(self.scn.start * self.idx as u64)).await;
+        }
+        let server = Endpoint::new(Ipv4Address::from(SERVER_ADDR), SERVER_PORT);
+        if sock.connect(server).await.is_err() {
+            slog(SEv::Note(format!("client {} connect failed", self.idx)));
+            return Ok(());
+        }
+        for i in 0..self.scn.writes[self.idx].len() {
+            let bytes = self.scn.write_bytes(self.idx, i);
+            slog(SEv::Write { client: self.idx, idx: i, len: bytes.len() });
+            if sock.send(bytes).is_err() {
+                slog(SEv::SendFailed { client: self.idx, idx: i });
+            }
+            if self.scn.gap > 0 {
+                sleep(Duration::from_micros(self.scn.gap)).await;
+            }
+        }
+        if !self.scn.tcp {
+            // datagram clients also read: only the server's reply may ever arrive here
+            sock.set_blocking(true);
+            loop {
+                tokio::select! {
+                    _ = rx.recv() => break,
+                    m = sock.recv_msg() => match m {
+                        Ok(m) => {
+                            let me = Ep::new(u32::from_be_bytes(client_addr(self.idx)), 0);
+                            slog(SEv::ReadMsg { local: me, remote: Ep::new(0, 0), bytes: m.to_vec() });
+                        }
+                        Err(_) => break,
+                    }
+                }
+            }
+        } else {
+            // keep the socket (and with it the session) alive until the simulation ends
+            let _ = rx.recv().await;
+        }
+        drop(sock);
+        Ok(())
+    }
+    fn demux(&self, _m: Message, _c: Arc<dyn Session>, _k: Control, _mc: Arc<Machine>) -> Result<(), DemuxError> {
+        Ok(())
+    }
+}
+
+/// UDP only: sends datagrams from its own address to client 0's connected socket
+struct IntruderApp {
+    scn: Arc<Scn>,
+}
+
+#[async_trait::async_trait]
+impl Protocol for IntruderApp {
+    async fn start(&self, shutdown: Shutdown, initialized: Arc<Barrier>, machine: Arc<Machine>) -> Result<(), StartError> {
+        let sockets = machine.protocol::<SocketAPI>().unwrap();
+        let mut sock = sockets.new_socket(ProtocolFamily::INET, SocketType::Datagram, machine.clone()).await.unwrap();
+        let mut rx = shutdown.receiver();
+        initialized.wait().await;
+        // same source port as the server, other address; target: first ephemeral port of client 0
+        let _ = sock.bind(Endpoint::new(Ipv4Address::from(INTRUDER_ADDR), SERVER_PORT));
+        sleep(Duration::from_micros(self.scn.lat * 4 + 2000)).await;
+        let target = Endpoint::new(Ipv4Address::from(client_addr(0)), 49152);
+        if sock.connect(target).await.is_ok() {
+            for k in 0..3u8 {
+                let _ = sock.send(vec![0xEE, 0xEE, k]);
+                sleep(Duration::from_micros(self.scn.lat + 500)).await;
+            }
+        }
+        let _ = rx.recv().await;
+        drop(sock);
+        Ok(())
+    }
+    fn demux(&self, _m: Message, _c: Arc<dyn Session>, _k: Control, _mc: Arc<Machine>) -> Result<(), DemuxError> {
+        Ok(())
+    }
+}
+
+struct ServerApp {
+    scn: Arc<Scn>,
+}
+
+fn read_sizes(scn: &Scn) -> Vec<usize> {
+    let all = [1usize, 2, 3, 7, 16, 61, 100, 536, 1000, 1460, 4096, 20000, 70000, 200000];
+    if scn.maxread == 0 {
+        all.to_vec()
+    } else {
+        all.iter().copied().filter(|x| *x as u64 <= scn.maxread).collect()
+    }
+}
+
+async fn stream_reader(mut sock: Socket, local: Ep, remote: Ep, scn: Arc<Scn>, done: Arc<AtomicUsize>, shutdown: Shutdown) {
+    let client = (remote.addr & 0xff) as usize - 10;
+    if scn.rdelay > 0 {
+        sleep(Duration::from_micros(scn.rdelay)).await;
+    }
+    let total = if client < scn.n_clients() { scn.total(client) as usize } else { 0 };
+    let extra = if scn.gapinject { GAP_MARK.len() } else { 0 };
+    let sizes = read_sizes(&scn);
+    let mut rng = Rng::new(scn.seed ^ (0x5151 + client as u64));
+    let mut got = 0usize;
+    while got < total + extra {
+        let n = *rng.pick(&sizes);
+        match sock.recv(n).await {
+            Ok(b) => {
+                got += b.len();
+                slog(SEv::Read { local, remote, n, bytes: b });
+            }
+            Err(_) => break,
+        }
+        if scn.rgap > 0 {
+            sleep(Duration::from_micros(scn.rgap)).await;
+        }
+    }
+    finish(&scn, &done, &shutdown).await;
+    // keep the socket open: dropping it removes the session
+    let mut rx = shutdown.receiver();
+    let _ = rx.recv().await;
+    drop(sock);
+}
+
+async fn dgram_reader(mut sock: Socket, local: Ep, remote: Ep, scn: Arc<Scn>, done: Arc<AtomicUsize>, shutdown: Shutdown) {
+    let client = (remote.addr & 0xff) as usize - 10;
+    let expect = if client < scn.n_clients() { (0..scn.writes[client].len()).filter(|i| scn.fits(client, *i)).count() } else { 0 };
+    // one reply so that the client's socket has a legitimate sender
+    let _ = sock.send(b"reply".to_vec());
+    let mut got = 0usize;
+    let mut rx = shutdown.receiver();
+    loop {
+        tokio::select! {
+            _ = rx.recv() => break,
+            m = sock.recv_msg() => match m {
+                Ok(m) => {
+                    got += 1;
+                    slog(SEv::ReadMsg { local, remote, bytes: m.to_vec() });
+                    if got == expect && scn.drop == 0 && scn.dup == 0 {
+                        finish(&scn, &done, &shutdown).await;
+                    }
+                }
+                Err(_) => break,
+            }
+        }
+    }
+    drop(sock);
+}
+
+async fn finish(scn: &Scn, done: &AtomicUsize, shutdown: &Shutdown) {
+    if done.fetch_add(1, Ordering::SeqCst) + 1 == scn.n_clients() {
+        // let acknowledgements and stray frames settle
+        sleep(Duration::from_micros(4 * (scn.lat + scn.jit) + 20_000)).await;
+        shutdown.shut_down();
+    }
+}
+
+#[async_trait::async_trait]
+impl Protocol for ServerApp {
+    async fn start(&self, shutdown: Shutdown, initialized: Arc<Barrier>, machine: Arc<Machine>) -> Result<(), StartError> {
+        let sockets = machine.protocol::<SocketAPI>().unwrap();
+        let kind = if self.scn.tcp { SocketType::Stream } else { SocketType::Datagram };
+        let mut lsock = sockets.new_socket(ProtocolFamily::INET, kind, machine.clone()).await.unwrap();
+        let lep = Endpoint::new(Ipv4Address::CURRENT_NETWORK, SERVER_PORT);
+        lsock.bind(lep).unwrap();
+        lsock.listen(self.scn.backlog).unwrap();
+        slog(SEv::Listen { ep: ep_of(lep), backlog: self.scn.backlog });
+        *SERVER_MACHINE.lock().unwrap() = Some(machine.clone());
+        initialized.wait().await;
+        if self.scn.adelay > 0 {
+            sleep(Duration::from_micros(self.scn.adelay)).await;
+        }
+        let done = Arc::new(AtomicUsize::new(0));
+        for _ in 0..self.scn.n_clients() {
+            let sock = match lsock.accept().await {
+                Ok(s) => s,
+                Err(_) => break,
+            };
+            let Some((local, remote)) = LAST_ACCEPT.with(|p| p.take()) else { break };
+            if let Some(rx) = GAP_DONE.lock().unwrap().take() {
+                let _ = rx.recv_timeout(Duration::from_secs(5));
+            }
+            let (scn, done, sd) = (self.scn.clone(), done.clone(), shutdown.clone());
+            if self.scn.tcp {
+                tokio::spawn(stream_reader(sock, local, remote, scn, done, sd));
+            } else {
+                tokio::spawn(dgram_reader(sock, local, remote, scn, done, sd));
+            }
+        }
+        let mut rx = shutdown.receiver();
+        let _ = rx.recv().await;
+        drop(lsock);
+        Ok(())
+    }
+    fn demux(&self, _m: Message, _c: Arc<dyn Session>, _k: Control, _mc: Arc<Machine>) -> Result<(), DemuxError> {
+        Ok(())
+    }
+}
+
+// ------------------------------------------------------------------------------------------
+// running one full-stack scenario
+// ------------------------------------------------------------------------------------------
+
+fn make_planner(scn: &Scn) -> Option<Planner> {
+    if scn.jit == 0 && scn.drop == 0 && scn.dup == 0 {
+        return None;
+    }
+    let rng = Mutex::new(Rng::new(scn.seed ^ 0xfa17));
+    let losses: Mutex<HashMap<(u64, Option<u64>), u64>> = Mutex::new(HashMap::new());
+    let (jit, drop, dup, maxloss) = (scn.jit, scn.drop, scn.dup, scn.maxloss);
+    Some(Arc::new(move |w: &WireSend| {
+        let mut r = rng.lock().unwrap();
+        // ARP frames are left alone: address resolution under loss is C06's subject
+        if w.target == Target::Arp {
+            return VerifFramePlan::Deliver;
+        }
+        let key = (w.smac, w.dst);
+        let mut l = losses.lock().unwrap();
+        let lost = l.entry(key).or_insert(0);
+        if drop > 0 && r.below(1000) < drop && *lost < maxloss {
+            *lost += 1;
+            return VerifFramePlan::Drop;
+        }
+        *lost = 0;
+        if dup > 0 && r.below(1000) < dup {
+            return VerifFramePlan::Duplicate(Duration::from_micros(r.below(jit.max(1) * 2 + 1)));
+        }
+        if jit > 0 {
+            return VerifFramePlan::Delay(Duration::from_micros(r.below(jit + 1)));
+        }
+        VerifFramePlan::Deliver
+    }))
+}
+
+fn scaffold_scenario(scn: &Scn) -> Scenario {
+    let n_machines = 1 + scn.n_clients() + scn.intruder as usize;
+    let machines = (0..n_machines)
+        .map(|_| MachineSpec {
+            nets: vec![0],
+            arp: false, // added by `extra` together with the SocketAPI (needs the local address)
+            udp: true,
+            tcp: true,
+            sockets: false,
+            routes: vec![Route { addr: 0, mask_len: 0, slot: 0, mac: None }],
+            apps: vec![],
+        })
+        .collect();
+    Scenario { nets: vec![NetSpec { mtu: Some(scn.mtu), lat_us: (scn.lat, 0), thr: (0, 0) }], machines, mode: scn.mode, duration_us: scn.dur }
+}
+
+struct StackRun {
+    status: String,
+    events: Vec<SEv>,
+    wire_frames: usize,
+    wire_dropped: usize,
+    wire_dup: usize,
+}
+
+fn run_stack(scn: &Scn) -> StackRun {
+    install_observer(scn.gapinject);
+    let sc = scaffold_scenario(scn);
+    let planner = make_planner(scn);
+    let scn_arc = Arc::new(scn.clone());
+    let n = scn.n_clients();
+    let extra = move |idx: usize, m: Machine, _log: &Arc<Log>| -> Machine {
+        let addr: [u8; 4] = if idx == 0 {
+            SERVER_ADDR
+        } else if idx <= n {
+            client_addr(idx - 1)
+        } else {
+            INTRUDER_ADDR
+        };
+        let m = m.with(Arp::new()).with(SocketAPI::new(Some(Ipv4Address::from(addr))));
+        if idx == 0 {
+            m.with(ServerApp { scn: scn_arc.clone() })
+        } else if idx <= n {
+            m.with(ClientApp { idx: idx - 1, scn: scn_arc.clone() })
+        } else {
+            m.with(IntruderApp { scn: scn_arc.clone() })
+        }
+    };
+    let res = run_scenario_with(&sc, planner, &extra);
+    sv::set_observer(None);
+    let events = SLOG.lock().unwrap().clone();
+    let mut frames = 0;
+    let mut dropped = 0;
+    let mut dupd = 0;
+    for e in &res.events {
+        if let Ev::Wire { to: None, plan, .. } = &e.ev {
+            frames += 1;
+            if plan == "drop" {
+                dropped += 1;
+            }
+            if plan.starts_with("dup") {
+                dupd += 1;
+            }
+        }
+    }
+    StackRun { status: res.status, events, wire_frames: frames, wire_dropped: dropped, wire_dup: dupd }
+}
+
+fn outcome_str(o: sv::ReceiveOutcome) -> &'static str {
+    match o {
+        sv::ReceiveOutcome::Queued => "queued",
+        sv::ReceiveOutcome::Stored => "stored",
+        sv::ReceiveOutcome::Full => "full",
+        sv::ReceiveOutcome::Closed => "closed",
+    }
+}
+
+/// chunk as an op argument: `p:<client>:<off>:<len>` when it is the pattern, else `x:<hex>`
+fn chunk_arg(scn: &Scn, remote: Ep, bytes: &[u8], offs: &mut HashMap<Ep, u64>) -> String {
+    let c = (remote.addr & 0xff) as i64 - 10;
+    if scn.tcp && c >= 0 && (c as usize) < scn.n_clients() && !bytes.is_empty() {
+        let off = *offs.get(&remote).unwrap_or(&0);
+        if pat_range(c as u64, off, bytes.len() as u64) == bytes {
+            offs.insert(remote, off + bytes.len() as u64);
+            return format!("p:{}:{}:{}", c, off, bytes.len());
+        }
+    }
+    if !scn.tcp && c >= 0 && (c as usize) < scn.n_clients() && !bytes.is_empty() {
+        // a datagram: the pattern at the offset of one of the client's writes
+        for i in 0..scn.writes[c as usize].len() {
+            if scn.writes[c as usize][i] == bytes.len() as u64 && scn.write_bytes(c as usize, i) == bytes {
+                let off: u64 = scn.writes[c as usize][..i].iter().sum();
+                return format!("p:{}:{}:{}", c, off, bytes.len());
+            }
+        }
+    }
+    if bytes.len() <= 64 {
+        format!("x:{}", hex(bytes))
+    } else {
+        // long non-pattern chunk (only ever seen when TCP itself misdelivers): digest only
+        format!("d:{}:{}", bytes.len(), digest(bytes))
+    }
+}
+
+fn exec_stack(line: &str, rep: &mut CaseReport) {
+    let Some(scn) = Scn::parse(line) else {
+        rep.line(line, "bad-op");
+        return;
+    };
+    let run = run_stack(&scn);
+    rep.line(line, "scn");
+    let paused = scn.mode == RtMode::Paused;
+    rep.count(format!("mode.{}", if paused { "paused".to_string() } else { format!("{:?}", scn.mode) }));
+    rep.count(if scn.tcp { "kind.tcp" } else { "kind.udp" });
+    rep.count_n("wire.frames", run.wire_frames as u64);
+    rep.count_n("wire.dropped", run.wire_dropped as u64);
+    rep.count_n("wire.duplicated", run.wire_dup as u64);
+    rep.count(format!("status.{}", run.status));
+
+    // ---------- model lines: the server's socket-layer event sequence (paused runtime only) ----------
+    let server_addr = u32::from_be_bytes(SERVER_ADDR);
+    let mut n_full = 0u64;
+    let mut gap_completed: Option<bool> = None;
+    if paused {
+        let mut offs: HashMap<Ep, u64> = HashMap::new();
+        let has_rx: std::collections::HashSet<usize> = run.events.iter().filter_map(|e| if let SEv::Rx { demux, .. } = e { Some(*demux) } else { None }).collect();
+        for (i, e) in run.events.iter().enumerate() {
+            match e {
+                SEv::Listen { ep, backlog } => rep.line(format!("listen {} {}", ep, backlog), "ok"),
+                SEv::NewConn { local, remote } if local.addr == server_addr => rep.line(format!("notify {} {}", local, remote), "ok"),
+                SEv::Demux { local, remote, bytes } if local.addr == server_addr && !has_rx.contains(&i) => {
+                    // no SocketSession::receive: new session through the listen binding, or refused
+                    let arg = chunk_arg(&scn, *remote, bytes, &mut offs);
+                    rep.line(format!("arr {} {} {}", local, remote, arg), "norx");
+                }
+                SEv::Rx { demux, outcome } => {
+                    if let SEv::Demux { local, remote, bytes } = &run.events[*demux] {
+                        if local.addr == server_addr {
+                            let arg = chunk_arg(&scn, *remote, bytes, &mut offs);
+                            rep.line(format!("arr {} {} {}", local, remote, arg), outcome_str(*outcome));
+                        }
+                    }
+                }
+                SEv::AcceptGap { local, remote } => rep.line(format!("activate {} {}", Ep::new(0, local.port), fmt_addr(local.addr)), format!("activated {}", remote)),
+                SEv::Accepted { local, remote } => rep.line(format!("replay {} {}", local, remote), "replayed ok"),
+                SEv::Read { local, remote, n, bytes } => rep.line(format!("recv {} {} {}", local, remote, n), format!("r {} {}", bytes.len(), digest(bytes))),
+                SEv::ReadMsg { local, remote, bytes } if local.addr == server_addr => rep.line(format!("recvmsg {} {}", local, remote), format!("m {} {}", bytes.len(), digest(bytes))),
+                _ => {}
+            }
+        }
+    }
+    for e in &run.events {
+        match e {
+            SEv::Rx { outcome: sv::ReceiveOutcome::Full, .. } => n_full += 1,
+            SEv::GapInject { completed_in_gap } => gap_completed = Some(*completed_in_gap),
+            _ => {}
+        }
+    }
+    rep.count_n("session.full", n_full);
+    // identity of a channel overrun: how many chunks were waiting, unread, when the first one
+    // was dropped (the capacity, if the reader had not started yet)
+    let full_ident: String = {
+        let mut waiting: HashMap<Ep, usize> = HashMap::new();
+        let mut reading: std::collections::HashSet<Ep> = Default::default();
+        let mut id = String::from("stream-hole channel-full");
+        for e in &run.events {
+            match e {
+                SEv::Rx { demux, outcome } => {
+                    let SEv::Demux { remote, .. } = &run.events[*demux] else { continue };
+                    match outcome {
+                        sv::ReceiveOutcome::Queued | sv::ReceiveOutcome::Stored => *waiting.entry(*remote).or_insert(0) += 1,
+                        sv::ReceiveOutcome::Full => {
+                            id = if reading.contains(remote) {
+                                "stream-hole channel-full reader-active".to_string()
+                            } else {
+                                format!("stream-hole channel-full first-drop-after-{}-unread", waiting.get(remote).copied().unwrap_or(0))
+                            };
+                            break;
+                        }
+                        _ => {}
+                    }
+                }
+                SEv::Read { remote, .. } => {
+                    reading.insert(*remote);
+                }
+                _ => {}
+            }
+        }
+        id
+    };
+    if let Some(g) = gap_completed {
+        rep.count(if g { "accept.gap.demux-ran-inside" } else { "accept.gap.demux-excluded" });
+    }
+
+    // ---------- hand-off order: which write reached Tcb::send when ----------
+    let mut perms: Vec<Vec<usize>> = vec![vec![]; scn.n_clients()];
+    let mut any_permuted = false;
+    if scn.tcp {
+        // writes of one client with identical bytes are indistinguishable: the earliest not yet
+        // seen one is taken
+        let mut by_bytes: HashMap<(usize, Vec<u8>), std::collections::VecDeque<usize>> = HashMap::new();
+        for c in 0..scn.n_clients() {
+            for i in 0..scn.writes[c].len() {
+                by_bytes.entry((c, scn.write_bytes(c, i))).or_default().push_back(i);
+            }
+        }
+        for e in &run.events {
+            if let SEv::TcbSend { local, bytes } = e {
+                let c = (local.addr & 0xff) as i64 - 10;
+                if c >= 0 && (c as usize) < scn.n_clients() {
+                    if let Some(i) = by_bytes.get_mut(&(c as usize, bytes.clone())).and_then(|q| q.pop_front()) {
+                        perms[c as usize].push(i);
+                    }
+                }
+            }
+        }
+        for c in 0..scn.n_clients() {
+            let p = &perms[c];
+            if p.iter().enumerate().any(|(k, w)| k != *w) {
+                any_permuted = true;
+            }
+            let ps = if p.is_empty() { "-".to_string() } else { p.iter().map(|x| x.to_string()).collect::<Vec<_>>().join(",") };
+            rep.line(format!("handoff {} {}", scn.writes[c].len(), ps), "reachable");
+        }
+    }
+
+    // ---------- oracle ----------
+    let mut ok = true;
+    // (1) every recv(n) returns at most n bytes
+    for e in &run.events {
+        if let SEv::Read { n, bytes, .. } = e {
+            rep.count("reads");
+            if bytes.len() > *n {
+                ok = false;
+                rep.fail(format!("recv({}) returned {} bytes in `{}`", n, bytes.len(), line), "recv-exceeds-n");
+                break;
+            }
+        }
+    }
+    if scn.tcp {
+        // (2) per connection: bytes read = concatenation of the client's writes in program order
+        for c in 0..scn.n_clients() {
+            let caddr = u32::from_be_bytes(client_addr(c));
+            let mut got: Vec<u8> = vec![];
+            for e in &run.events {
+                if let SEv::Read { remote, bytes, .. } = e {
+                    if remote.addr == caddr {
+                        got.extend_from_slice(bytes);
+                    }
+                }
+            }
+            let mut want = scn.stream(c);
+            if scn.gapinject {
+                // the injected chunk was handed over after everything stored before accept():
+                // it must come out after those bytes (here: after the whole stream, since the
+                // client finished writing long before the delayed accept)
+                want.extend_from_slice(GAP_MARK);
+            }
+            rep.count_n("stream.bytes", got.len() as u64);
+            if got != want {
+                ok = false;
+                let first = got.iter().zip(want.iter()).position(|(a, b)| a != b).unwrap_or(got.len().min(want.len()));
+                let in_tcb_order: Vec<u8> = perms[c].iter().flat_map(|i| scn.write_bytes(c, *i)).collect();
+                let (what, ident) = if scn.gapinject && gap_completed == Some(true) {
+                    ("a chunk delivered between activation and replay of accept() overtook the stored ones", "accept-replay-reordered")
+                } else if any_permuted && got == in_tcb_order[..got.len().min(in_tcb_order.len())] && got.len() == want.len() {
+                    ("the stream is the concatenation of the writes in the permuted order in which they reached Tcb::send", "stream-reordered handoff")
+                } else if any_permuted {
+                    ("writes reached Tcb::send out of program order", "stream-reordered handoff")
+                } else if n_full > 0 {
+                    ("a chunk found the socket's channel full and was dropped (slow reader)", full_ident.as_str())
+                } else if run.status == "timedout" && got.len() < want.len() && got[..] == want[..got.len()] {
+                    ("the stream stopped short (a correct prefix arrived)", "stream-incomplete")
+                } else {
+                    ("the stream differs", "stream-mismatch")
+                };
+                rep.fail(
+                    format!("client {}: read {} bytes, expected {}, first difference at offset {} — {}; order at Tcb::send {:?}; channel-full drops {}; run {} `{}`", c, got.len(), want.len(), first, what, perms[c], n_full, run.status, line),
+                    ident,
+                );
+            }
+        }
+    } else {
+        // (3) datagrams: each message read by the server-side socket of client c is exactly one
+        // datagram client c sent; clients only ever read the server's reply
+        let mut sent: Vec<std::collections::HashSet<Vec<u8>>> = vec![Default::default(); scn.n_clients()];
+        for c in 0..scn.n_clients() {
+            for i in 0..scn.writes[c].len() {
+                sent[c].insert(scn.write_bytes(c, i));
+            }
+        }
+        for e in &run.events {
+            if let SEv::SendFailed { client, idx } = e {
+                rep.count("dgram.send-refused");
+                if scn.fits(*client, *idx) {
+                    ok = false;
+                    rep.fail(format!("send of datagram {} of client {} ({} bytes, MTU {}) was refused in `{}`", idx, client, scn.writes[*client][*idx], scn.mtu, line), "dgram-send-refused");
+                }
+            }
+            if let SEv::ReadMsg { local, remote, bytes } = e {
+                rep.count("dgram.read");
+                if local.addr == server_addr {
+                    let c = (remote.addr & 0xff) as usize - 10;
+                    if c < scn.n_clients() && sent[c].contains(bytes) {
+                        // exactly one datagram of the connected peer
+                    } else if let Some(sc) = (0..scn.n_clients()).find(|x| sent[*x].contains(bytes)) {
+                        ok = false;
+                        rep.fail(format!("socket connected to client {} read a datagram only client {} sent in `{}`", c, sc, line), "dgram-wrong-peer");
+                    } else {
+                        ok = false;
+                        rep.fail(format!("socket connected to client {} read {} bytes that are no datagram anybody sent (fragment or concatenation) in `{}`", c, bytes.len(), line), "dgram-not-intact");
+                    }
+                } else if bytes != b"reply" {
+                    ok = false;
+                    rep.fail(format!("a client socket connected to the server read a datagram that the server did not send ({} bytes, {}) in `{}`", bytes.len(), hex(&bytes[..bytes.len().min(8)]), line), "dgram-wrong-peer");
+                }
+            }
+        }
+        if scn.drop == 0 && scn.dup == 0 {
+            // loss-free: every datagram arrives exactly once
+            for c in 0..scn.n_clients() {
+                let caddr = u32::from_be_bytes(client_addr(c));
+                let k = run.events.iter().filter(|e| matches!(e, SEv::ReadMsg { local, remote, .. } if local.addr == server_addr && remote.addr == caddr)).count();
+                let want = (0..scn.writes[c].len()).filter(|i| scn.fits(c, *i)).count();
+                if k != want && n_full == 0 {
+                    ok = false;
+                    rep.fail(format!("client {}: {} of {} sendable datagrams arrived on a loss-free network in `{}`", c, k, want, line), "dgram-missing");
+                }
+            }
+        }
+    }
+    for e in &run.events {
+        if let SEv::Note(s) = e {
+            rep.notes.push(s.clone());
+        }
+    }
+    if ok {
+        rep.count("oracle.ok");
+    }
+    let big = scn.writes.iter().any(|w| w.len() >= 2);
+    rep.nontrivial = big;
+}
+
+// ------------------------------------------------------------------------------------------
+// generator of full-stack scenarios
+// ------------------------------------------------------------------------------------------
+
+fn gen_sizes(rng: &mut Rng, k: usize, budget: u64) -> Vec<u64> {
+    let mut v = vec![];
+    let mut left = budget;
+    for _ in 0..k {
+        let s = match rng.below(10) {
+            0 => 1,
+            1 => rng.range(2, 10),
+            2 | 3 => rng.range(11, 200),
+            4 | 5 => rng.range(201, 1500),
+            6 | 7 => rng.range(1501, 9000),
+            8 => rng.range(9001, 40000),
+            _ => rng.range(40001, 100000),
+        }
+        .min(left.max(1));
+        left = left.saturating_sub(s);
+        v.push(s);
+    }
+    v
+}
+
+/// `flavour_set`: fault-free and small enough to run in real time on the multi_thread runtimes too
+fn gen_stack(rng: &mut Rng, mode: RtMode, tcp: bool, flavour_set: bool) -> Scn {
+    let paused = !flavour_set;
+    let n = match rng.below(6) {
+        0..=2 => 1,
+        3 | 4 => rng.range(2, 3) as usize,
+        _ => rng.range(4, 6) as usize,
+    };
+    let faults = if paused { rng.below(3) } else { 0 };
+    let mtu = *rng.pick(&[100u16, 120, 300, 576, 1500, 1500, 9000]);
+    let budget: u64 = if paused { 160_000 } else { 60_000 };
+    let writes: Vec<Vec<u64>> = (0..n)
+        .map(|_| {
+            let k = match rng.below(4) {
+                0 => 1,
+                1 => rng.range(2, 4),
+                2 => rng.range(5, 20),
+                _ => rng.range(21, 40),
+            } as usize;
+            if tcp {
+                gen_sizes(rng, k, budget / n as u64)
+            } else {
+                // datagrams: up to a few fragments
+                (0..k).map(|_| *rng.pick(&[0u64, 1, 9, 60, 72, 200, 1000, 2500])).collect()
+            }
+        })
+        .collect();
+    Scn {
+        tcp,
+        mode,
+        mtu,
+        lat: *rng.pick(&[200u64, 1000, 5000]),
+        jit: if faults >= 1 { *rng.pick(&[0u64, 300, 3000]) } else { 0 },
+        drop: if faults == 2 { *rng.pick(&[10u64, 50, 150]) } else { 0 },
+        dup: if faults == 2 && tcp { *rng.pick(&[0u64, 30]) } else { 0 },
+        maxloss: rng.range(1, 3),
+        seed: rng.next() % 1_000_000,
+        gap: if rng.chance(1, 2) { 0 } else { *rng.pick(&[100u64, 3000, 20000]) },
+        start: *rng.pick(&[0u64, 0, 700, 15000]),
+        adelay: *rng.pick(&[0u64, 0, 0, 30000]),
+        rdelay: *rng.pick(&[0u64, 0, 0, 20000]),
+        rgap: *rng.pick(&[0u64, 0, 0, 500]),
+        maxread: *rng.pick(&[0u64, 0, 100, 1460]),
+        gapinject: false,
+        intruder: !tcp && rng.chance(1, 2),
+        dur: if paused { 60_000_000 } else { 6_000_000 },
+        backlog: 64,
+        writes,
+    }
+}
+
+/// scenarios that every run starts with (design-phase candidates and their regressions)
+fn fixed_stack() -> Vec<String> {
+    let twenty = vec!["10"; 20].join(",");
+    vec![
+        // F-C02-2: 20 back-to-back writes, multi_thread with 4 workers
+        format!("scn kind=tcp mode=mt:4 mtu=1500 lat=200 jit=0 drop=0 dup=0 maxloss=1 seed=1 gap=0 start=0 adelay=0 rdelay=0 rgap=0 maxread=0 gapinject=0 intruder=0 dur=4000000 backlog=8 writes={}", twenty),
+        // same on the paused current_thread runtime
+        format!("scn kind=tcp mode=paused mtu=1500 lat=200 jit=0 drop=0 dup=0 maxloss=1 seed=1 gap=0 start=0 adelay=0 rdelay=0 rgap=0 maxread=0 gapinject=0 intruder=0 dur=20000000 backlog=8 writes={}", twenty),
+        // F-C02-1: small reads across chunk boundaries
+        "scn kind=tcp mode=paused mtu=1500 lat=1000 jit=0 drop=0 dup=0 maxloss=1 seed=3 gap=3000 start=0 adelay=0 rdelay=40000 rgap=0 maxread=7 gapinject=0 intruder=0 dur=20000000 backlog=8 writes=6,6,6,6,6,6".to_string(),
+        // F-C02-4: a chunk handed over between activation and replay of accept()
+        "scn kind=tcp mode=paused mtu=1500 lat=1000 jit=0 drop=0 dup=0 maxloss=1 seed=4 gap=0 start=0 adelay=50000 rdelay=0 rgap=0 maxread=0 gapinject=1 intruder=0 dur=20000000 backlog=8 writes=5,5".to_string(),
+        // F-C02-3: slow reader, 300 spaced small writes -> more than 255 chunks wait in the channel
+        format!("scn kind=tcp mode=paused mtu=1500 lat=200 jit=0 drop=0 dup=0 maxloss=1 seed=5 gap=2000 start=0 adelay=0 rdelay=1500000 rgap=0 maxread=0 gapinject=0 intruder=0 dur=20000000 backlog=8 writes={}", vec!["3"; 300].join(",")),
+        // F-C02-3 / accept(): more than 255 chunks stored before accept()
+        format!("scn kind=tcp mode=paused mtu=1500 lat=200 jit=0 drop=0 dup=0 maxloss=1 seed=6 gap=2000 start=0 adelay=1500000 rdelay=0 rgap=0 maxread=0 gapinject=0 intruder=0 dur=20000000 backlog=8 writes={}", vec!["3"; 300].join(",")),
+        // datagrams with an intruder
+        "scn kind=udp mode=paused mtu=300 lat=1000 jit=0 drop=0 dup=0 maxloss=1 seed=7 gap=3000 start=0 adelay=0 rdelay=0 rgap=0 maxread=0 gapinject=0 intruder=1 dur=20000000 backlog=8 writes=5,700,0,60;9,9".to_string(),
+    ]
+}
+
+// ------------------------------------------------------------------------------------------
+// (a) recv / recv_msg unit correspondence over a connected UDP pair
+// ------------------------------------------------------------------------------------------
+
+#[derive(Clone, Debug)]
+enum UOp {
+    Snd(Vec<u8>),
+    Recv(usize, bool),
+    RecvMsg(bool),
+}
+
+fn uop_line(o: &UOp) -> String {
+    match o {
+        UOp::Snd(b) => format!("snd {}", hex(b)),
+        UOp::Recv(n, b) => format!("recv {} {}", n, *b as u8),
+        UOp::RecvMsg(b) => format!("recvmsg {}", *b as u8),
+    }
+}
+fn uop_parse(l: &str) -> Option<UOp> {
+    let w: Vec<&str> = l.split_whitespace().collect();
+    match w.as_slice() {
+        ["snd", h] => Some(UOp::Snd(unhex(h))),
+        ["recv", n, b] => Some(UOp::Recv(n.parse().ok()?, *b == "1")),
+        ["recvmsg", b] => Some(UOp::RecvMsg(*b == "1")),
+        _ => None,
+    }
+}
+
+struct PairApp {
+    /// 0 = A (sender), 1 = B (reader and driver of the script)
+    side: usize,
+    ops: Arc<Vec<UOp>>,
+    a_sock: Arc<Mutex<Option<Socket>>>,
+    results: Arc<Mutex<Vec<String>>>,
+}
+
+const PAIR_A: ([u8; 4], u16) = ([10, 0, 0, 1], 5000);
+const PAIR_B: ([u8; 4], u16) = ([10, 0, 0, 2], 6000);
+const PAIR_LAT_US: u64 = 1000;
+
+#[async_trait::async_trait]
+impl Protocol for PairApp {
+    async fn start(&self, shutdown: Shutdown, initialized: Arc<Barrier>, machine: Arc<Machine>) -> Result<(), StartError> {
+        let sockets = machine.protocol::<SocketAPI>().unwrap();
+        let mut sock = sockets.new_socket(ProtocolFamily::INET, SocketType::Datagram, machine.clone()).await.unwrap();
+        initialized.wait().await;
+        let a = Endpoint::new(Ipv4Address::from(PAIR_A.0), PAIR_A.1);
+        let b = Endpoint::new(Ipv4Address::from(PAIR_B.0), PAIR_B.1);
+        if self.side == 0 {
+            sock.bind(a).unwrap();
+            sock.connect(b).await.unwrap();
+            *self.a_sock.lock().unwrap() = Some(sock);
+            let mut rx = shutdown.receiver();
+            let _ = rx.recv().await;
+            return Ok(());
+        }
+        sock.bind(b).unwrap();
+        sock.connect(a).await.unwrap();
+        // wait for A's socket
+        let a_sock = loop {
+            if let Some(s) = self.a_sock.lock().unwrap().take() {
+                break s;
+            }
+            sleep(Duration::from_micros(100)).await;
+        };
+        for op in self.ops.iter() {
+            let res = match op {
+                UOp::Snd(bytes) => {
+                    let before = SLOG.lock().unwrap().len();
+                    let _ = a_sock.send(bytes.clone());
+                    sleep(Duration::from_micros(3 * PAIR_LAT_US)).await;
+                    let g = SLOG.lock().unwrap();
+                    let mut r = "lost".to_string();
+                    for e in g[before..].iter() {
+                        if let SEv::Rx { outcome, .. } = e {
+                            r = outcome_str(*outcome).to_string();
+                        }
+                    }
+                    r
+                }
+                UOp::Recv(n, blocking) => {
+                    sock.set_blocking(*blocking);
+                    match tokio::time::timeout(Duration::from_millis(20), sock.recv(*n)).await {
+                        Ok(Ok(v)) => format!("r {}", hex(&v)),
+                        Ok(Err(_)) => "error".to_string(),
+                        Err(_) => "blocked".to_string(),
+                    }
+                }
+                UOp::RecvMsg(blocking) => {
+                    sock.set_blocking(*blocking);
+                    match tokio::time::timeout(Duration::from_millis(20), sock.recv_msg()).await {
+                        Ok(Ok(m)) => format!("m {}", hex(&m.to_vec())),
+                        Ok(Err(_)) => "error".to_string(),
+                        Err(_) => "blocked".to_string(),
+                    }
+                }
+            };
+            self.results.lock().unwrap().push(res);
+        }
+        shutdown.shut_down();
+        drop(a_sock);
+        drop(sock);
+        Ok(())
+    }
+    fn demux(&self, _m: Message, _c: Arc<dyn Session>, _k: Control, _mc: Arc<Machine>) -> Result<(), DemuxError> {
+        Ok(())
+    }
+}
+
+fn run_pair(ops: &[UOp]) -> Vec<String> {
+    install_observer(false);
+    let sc = Scenario {
+        nets: vec![NetSpec { mtu: Some(1500), lat_us: (PAIR_LAT_US, 0), thr: (0, 0) }],
+        machines: (0..2)
+            .map(|_| MachineSpec { nets: vec![0], arp: false, udp: true, tcp: false, sockets: false, routes: vec![Route { addr: 0, mask_len: 0, slot: 0, mac: None }], apps: vec![] })
+            .collect(),
+        mode: RtMode::Paused,
+        duration_us: 600_000_000,
+    };
+    let ops = Arc::new(ops.to_vec());
+    let a_sock: Arc<Mutex<Option<Socket>>> = Arc::new(Mutex::new(None));
+    let results: Arc<Mutex<Vec<String>>> = Arc::new(Mutex::new(vec![]));
+    let (o2, a2, r2) = (ops.clone(), a_sock.clone(), results.clone());
+    let extra = move |idx: usize, m: Machine, _log: &Arc<Log>| -> Machine {
+        let addr = if idx == 0 { PAIR_A.0 } else { PAIR_B.0 };
+        m.with(Arp::new()).with(SocketAPI::new(Some(Ipv4Address::from(addr)))).with(PairApp { side: idx, ops: o2.clone(), a_sock: a2.clone(), results: r2.clone() })
+    };
+    let _ = run_scenario_with(&sc, None, &extra);
+    sv::set_observer(None);
+    let r = results.lock().unwrap().clone();
+    r
+}
+
+fn gen_pair(rng: &mut Rng) -> Vec<UOp> {
+    let mut ops = vec![];
+    let flood = rng.chance(1, 25);
+    if flood {
+        // more datagrams than the channel holds, then drain
+        let k = rng.range(250, 262);
+        for i in 0..k {
+            ops.push(UOp::Snd(vec![(i % 251) as u8; 1 + (i % 3) as usize]));
+        }
+        for _ in 0..6 {
+            ops.push(UOp::Recv(*rng.pick(&[1usize, 100, 1000]), false));
+        }
+        ops.push(UOp::Snd(vec![0xAB, 0xCD]));
+        ops.push(UOp::Recv(100000, false));
+        ops.push(UOp::Recv(5, true));
+        return ops;
+    }
+    // shadow of what is pending, to aim read sizes at the boundaries
+    let mut pending: Vec<usize> = vec![];
+    let steps = rng.range(4, 30);
+    for _ in 0..steps {
+        let roll = rng.below(10);
+        if roll < 4 || pending.is_empty() && roll < 7 {
+            let len = *rng.pick(&[0usize, 1, 2, 3, 4, 5, 8, 13, 40]);
+            ops.push(UOp::Snd(rng.bytes(len)));
+            pending.push(len);
+        } else if roll < 9 {
+            let head = pending.first().copied().unwrap_or(4);
+            let all: usize = pending.iter().sum();
+            let n = *rng.pick(&[0usize, 1, head.saturating_sub(1), head, head + 1, 2 * head, head + 2, all, all + 1, 1000]);
+            let blocking = rng.chance(1, 2);
+            ops.push(UOp::Recv(n, blocking));
+            // conservative shadow update (exact for the corrected recv): consume n bytes
+            let mut left = n;
+            while left > 0 && !pending.is_empty() {
+                if pending[0] <= left {
+                    left -= pending[0];
+                    pending.remove(0);
+                } else {
+                    pending[0] -= left;
+                    left = 0;
+                }
+            }
+        } else {
+            ops.push(UOp::RecvMsg(rng.chance(1, 2)));
+            if !pending.is_empty() {
+                pending.remove(0);
+            }
+        }
+    }
+    ops
+}
+
+fn exec_pair(ops: &[UOp], rep: &mut CaseReport) {
+    let res = run_pair(ops);
+    rep.line("cfg udp-pair", "cfg");
+    // oracle: shadow byte stream of everything that was queued, FIFO
+    let mut shadow: std::collections::VecDeque<u8> = Default::default();
+    let mut boundaries = 0usize;
+    for (i, op) in ops.iter().enumerate() {
+        let r = res.get(i).cloned().unwrap_or_else(|| "missing".into());
+        rep.line(uop_line(op), r.clone());
+        match op {
+            UOp::Snd(b) => {
+                rep.count(format!("snd.{}", r));
+                if r == "queued" {
+                    shadow.extend(b.iter());
+                }
+            }
+            UOp::Recv(n, _) => {
+                if let Some(h) = r.strip_prefix("r ") {
+                    let v = unhex(h);
+                    rep.count(if v.len() == *n { "recv.full" } else if v.is_empty() { "recv.empty" } else { "recv.short" });
+                    if v.len() > *n {
+                        rep.fail(format!("recv({}) returned {} bytes (op {} of `{}`)", n, v.len(), i, ops.iter().map(uop_line).collect::<Vec<_>>().join(" ; ")), "recv-exceeds-n");
+                    }
+                    let exp: Vec<u8> = shadow.iter().take(v.len()).copied().collect();
+                    if exp != v {
+                        rep.fail(format!("recv({}) returned bytes that are not the next pending ones (op {})", n, i), "recv-stream-broken");
+                    }
+                    for _ in 0..v.len().min(shadow.len()) {
+                        shadow.pop_front();
+                    }
+                    if !v.is_empty() && v.len() < *n {
+                        boundaries += 1;
+                    }
+                } else {
+                    rep.count(format!("recv.{}", r));
+                }
+            }
+            UOp::RecvMsg(_) => {
+                if let Some(h) = r.strip_prefix("m ") {
+                    let v = unhex(h);
+                    rep.count("recvmsg.msg");
+                    let exp: Vec<u8> = shadow.iter().take(v.len()).copied().collect();
+                    if exp != v {
+                        rep.fail(format!("recv_msg returned bytes that are not the next pending ones (op {})", i), "recv-stream-broken");
+                    }
+                    for _ in 0..v.len().min(shadow.len()) {
+                        shadow.pop_front();
+                    }
+                } else {
+                    rep.count(format!("recvmsg.{}", r));
+                }
+            }
+        }
+    }
+    rep.nontrivial = boundaries > 0 || ops.len() > 8;
+}
+
+// ------------------------------------------------------------------------------------------
+// entry points
+// ------------------------------------------------------------------------------------------
+
+fn run_one_case(spec: &str) -> CaseReport {
+    let mut rep = CaseReport::default();
+    let mut lines = spec.lines();
+    let head = lines.next().unwrap_or("");
+    let w: Vec<&str> = head.split_whitespace().collect();
+    match w.as_slice() {
+        ["pair", seed] => {
+            let mut rng = Rng::new(seed.parse().unwrap_or(1));
+            let ops = gen_pair(&mut rng);
+            exec_pair(&ops, &mut rep);
+        }
+        ["stack", ..] => {
+            let line = head.strip_prefix("stack ").unwrap_or("");
+            exec_stack(line, &mut rep);
+        }
+        ["replay"] => {
+            let rest: Vec<&str> = lines.collect();
+            if let Some(scn) = rest.iter().find(|l| l.starts_with("scn ")) {
+                exec_stack(scn, &mut rep);
+            } else {
+                let ops: Vec<UOp> = rest.iter().filter_map(|l| uop_parse(l)).collect();
+                exec_pair(&ops, &mut rep);
+            }
+        }
+        _ => rep.line(head, "bad-spec"),
+    }
+    rep
+}
+
+const RULE_PAIR: &str = "connected UDP socket pair on a loss-free network, paused current_thread runtime; 4..30 ops per case: datagrams of 0..40 bytes, recv(n) with n in {0,1,len-1,len,len+1,2*len,len+2,all,all+1,1000} (len = head message, all = everything pending) blocking and non-blocking, recv_msg; 1 in 25 cases floods 250..262 datagrams into the 255-slot channel before reading; non-trivial = some read ended inside the pending data or more than 8 ops; distinct = hash of the op lines";
+const RULE_STACK: &str = "full stack (SocketAPI, Tcp/Udp, Ipv4, Arp, Pci, Network): 1..6 clients against one listening server; per client 1..40 writes of 1 B..100 KB back-to-back or spaced (UDP: 1..40 datagrams of 0..2500 B), MTU in {100,120,300,576,1500,9000}, latency 0.2..5 ms, jitter up to 3 ms, drop 1..15 % with at most 1..3 consecutive losses per direction, duplicates 3 % on the paused runtime (thorough tier: jitter 0.3 ms + 1 % drop also on multi_thread); delayed accept, delayed/slow reader, read sizes 1..200000; runtimes: paused current_thread and multi_thread with 2/4/16 workers; fixed scenarios first (20 back-to-back writes on mt:4 and paused, small reads, accept-gap injection, slow reader beyond 255 chunks, late accept beyond 255 chunks, datagrams with intruder); non-trivial = some client issues at least 2 writes; distinct = hash of the scenario line";
 
 pub fn run(args: &Args) {
-    eprintln!("hfull: {} not implemented yet", args.prop);
-    std::process::exit(2);
+    if is_worker(args) {
+        worker_loop(|spec| run_one_case(spec));
+        return;
+    }
+    let stack = args.prop.ends_with("-stack");
+    let mut out = Out::new(&args.out);
+    let mut specs: Vec<String> = vec![];
+    if let Some(rp) = &args.replay {
+        let ops = read_ops(rp);
+        specs.push(format!("replay\n{}", ops.join("\n")));
+    } else if stack {
+        for f in fixed_stack() {
+            specs.push(format!("stack {}", f));
+        }
+        let mut rng = Rng::new(args.seed);
+        let mt_every: u64 = args.extra.get("mt_every").and_then(|v| v.parse().ok()).unwrap_or(6).max(1);
+        let reps: u64 = args.extra.get("reps").and_then(|v| v.parse().ok()).unwrap_or(1);
+        let mt_faults = args.extra.get("mt_faults").map(|v| v == "1").unwrap_or(false);
+        for i in 0..args.cases {
+            let mut r = rng.fork();
+            let tcp = !r.chance(1, 5);
+            if i % mt_every == 0 {
+                // a flavour set: the same fault-free scenario on the paused current_thread runtime
+                // and on multi_thread with 2, 4 and 16 workers (`reps` times each)
+                let mut scn = gen_stack(&mut r, RtMode::Paused, tcp, true);
+                if mt_faults && tcp && r.chance(1, 3) {
+                    // light faults on the real-time runtimes too (RTO = 100 ms of real time per loss)
+                    scn.jit = 300;
+                    scn.drop = 10;
+                    scn.maxloss = 2;
+                }
+                specs.push(format!("stack {}", scn.to_line()));
+                for k in [2usize, 4, 16] {
+                    for _ in 0..reps {
+                        let mut s2 = scn.clone();
+                        s2.mode = RtMode::MultiThread(k);
+                        s2.dur = if s2.drop > 0 { 25_000_000 } else { 8_000_000 };
+                        specs.push(format!("stack {}", s2.to_line()));
+                    }
+                }
+            } else {
+                let scn = gen_stack(&mut r, RtMode::Paused, tcp, false);
+                specs.push(format!("stack {}", scn.to_line()));
+            }
+        }
+    } else {
+        let mut rng = Rng::new(args.seed);
+        for _ in 0..args.cases {
+            specs.push(format!("pair {}", rng.next() % 1_000_000_000));
+        }
+    }
+    let workers = args.extra.get("workers").and_then(|v| v.parse().ok()).unwrap_or_else(default_workers);
+    let outcomes = run_cases(&args.prop, &specs, workers, if stack { 4 } else { 25 }, 120);
+    for (c, o) in outcomes.iter().enumerate() {
+        out.begin_case(c as u64);
+        match o {
+            CaseOutcome::Done(rep) => rep.emit(&mut out),
+            died => {
+                let (line, ident) = died_ident(died);
+                // the scenario goes first so that a replay file re-executes it
+                let spec = &specs[c];
+                if let Some(scn) = spec.lines().find_map(|l| l.strip_prefix("stack ").or(if l.starts_with("scn ") { Some(l) } else { None })) {
+                    out.line(scn, "scn");
+                }
+                let cl = format!("crash {}", line);
+                out.line(&cl, &cl);
+                out.mark_nontrivial();
+                out.fail(&format!("the simulation process died: {} (case `{}`)", ident, spec.lines().next().unwrap_or("")), &ident);
+            }
+        }
+        out.end_case();
+    }
+    out.finish(if stack { RULE_STACK } else { RULE_PAIR });
 }
